@@ -4,12 +4,13 @@ import random
 
 from .. import core, flow, corr_bm, oracles_bm as ob
 
-PROOFS = ['Tsv.Proofs.C03Alg', 'Tsv.Proofs.C03Reverse', 'Tsv.Proofs.BMCore', 'Tsv.Proofs.C05', 'Tsv.Proofs.C03Model']
+PROOFS = ['Tsv.Proofs.C03Alg', 'Tsv.Proofs.C03Reverse', 'Tsv.Proofs.BMCore', 'Tsv.Proofs.C05', 'Tsv.Proofs.C03Model', 'Tsv.Proofs.C03ModelEx']
 TRUSTED = ["Lean 4.33 kernel + Mathlib", "vlib/sym.py tracer and vlib/emit.py emitter (validated each run: real code vs trace, "
            "Lean Float vs trace, bit for bit)", "IEEE rounding of the float evaluation is not modelled (field identities)",
-           "C03Model.chen_W_any_history: additivity of W for every query history in the Brownian state-machine model (hypotheses "
-           "discharged for the regenerated kernels: genOps_bridgeAdditive / genOps_aggAdditive); the U / Levy-area relations across "
-           "histories rest on the kernel theorems + the model correspondence + the real-code oracle"]
+           "C03Model.chen_W_any_history / chen_U_any_history: additivity of W and Chen's relation for U for every query history in the "
+           "Brownian state-machine model (hypotheses discharged for the regenerated kernels: genOps_bridgeAdditive / genOps_bridgeChen "
+           "/ genOps_aggAdditive / genOps_aggChen; non-vacuity: C03ModelEx, a concrete three-query history over Q); the Davie/Foster "
+           "Levy-area relation across histories rests on the kernel theorems + the model correspondence + the real-code oracle"]
 
 
 def oracle(rep, rng, n_cfg, n_hist, n_tr):
